@@ -229,7 +229,8 @@ def gen_case(rng, variant):
          'cap_sample': rng.integers(4, 40, 3)}
     if variant == 'mask':
         c['mask'] = {'mask_amp_mode': gens.pick(rng, ['abs', 'ratio_sig', 'ratio_imf']),
-                     'mask_freqs': float(gens.pick(rng, [0.3, 0.2, 0.12])), 'mask_amp': float(gens.pick(rng, [1, .5, 2])),
+                     'mask_freqs': (float(gens.pick(rng, [0.3, 0.2, 0.12])) if rng.random() < .6 else [0.3, 0.14, 0.07, 0.03, 0.015, 0.007]),
+                     'mask_amp': float(gens.pick(rng, [1, .5, 2])),
                      'nphases': int(gens.pick(rng, [1, 2, 4])), 'mask_step_factor': float(gens.pick(rng, [2, 3, 1.5]))}
     elif variant in ('ens', 'cens'):
         c['ens'] = {'nensembles': int(rng.integers(1, 5)), 'nprocesses': int(rng.integers(1, 3)),
